@@ -192,6 +192,8 @@ def wide_weight(t):
     """rough count of wide character sets (., negations, [:ascii:]) times the largest repetition count: the followpos
     route creates one position per character of a set and is slow when many wide sets are duplicated"""
     wide = len(re.findall(r"(?<!\\)\.|\\[DWSP]|\[\^|\[:ascii:\]", t))
+    for lo, hi in re.findall(r"\\x([0-9A-Fa-f]{2,8})-\\x([0-9A-Fa-f]{2,8})", t):     # a range over hexadecimal escapes: one position per code point
+        wide += max(0, int(hi, 16) - int(lo, 16)) // 128
     reps = [int(x) for x in re.findall(r"[{,](\d+)", t)] + [1]
     return wide * max(max(reps), 1)
 
